@@ -33,3 +33,18 @@ Theorem C11_wait_cancelled_only_if_role_lost : forall c w inst u p,
   forall args out, ~ In (TCall KTW args EngineBase.RCancel out) (snd (run_op c w (OStep inst u p))).
 Proof. exact run_op_wait_cancelled. Qed.
 Print Assumptions C11_wait_cancelled_only_if_role_lost.
+
+(* THE ERROR BACK-OFF ENDS AT ONCE WHEN THE ROLE IS LOST, for EVERY state (workflow.go runOnce's wait after an error): a process
+   parked in its back-off whose lease is gone — role revoked, workflow stopped, instance crashed — does not sleep the back-off
+   out: at its next step the wait comes back cancelled, the role is released, the process is back to asking for its role, and
+   NOT ONE adapter call is made (the world changes by the released role only). With the lease intact it stays parked until the
+   deadline. So Stop, which waits for every process to end, is never kept waiting by a back-off (proofs/StoreOk.v; the harness
+   gives an instance up, API=-7, when 3 s of real time after cancelling its context a process has still not ended) *)
+From WF Require Import proofs.StoreOk.
+Theorem C11_backoff_ends_when_role_lost : forall c inst u d s,
+  o_lease s && negb (o_dead s) = false ->
+  fst (proc_op c inst u (PBackoff d) s) = Ok PIdle /\
+  o_w (snd (proc_op c inst u (PBackoff d) s)) = release_role (o_w s) u inst /\
+  o_trace (snd (proc_op c inst u (PBackoff d) s)) = (if o_dead s then o_trace s else TCall KTW [d] EngineBase.RCancel [] :: o_trace s).
+Proof. exact backoff_cancelled_when_role_lost. Qed.
+Print Assumptions C11_backoff_ends_when_role_lost.
